@@ -11,6 +11,9 @@ ov = os.path.join(os.path.dirname(__file__), "manifest_table.py")
 if os.path.exists(ov):
     spec = importlib.util.spec_from_file_location("mt", ov); mt = importlib.util.module_from_spec(spec); spec.loader.exec_module(mt)
     CHECKS.update(mt.CHECKS); PENDING = {k: v for k, v in mt.PENDING.items()}
+    for k, add in getattr(mt, "EXTRA", {}).items():
+        if k in CHECKS and add:
+            c = list(CHECKS[k]); c[2] = c[2] + add; CHECKS[k] = tuple(c)
 
 m = {
  "version": 1,
